@@ -28,13 +28,14 @@ EXPLANATION = (
 
 
 class Obligation:
-    def __init__(self, name, fn, params=None, time_limit=None, kind='forall', max_paths=None):
+    def __init__(self, name, fn, params=None, time_limit=None, kind='forall', max_paths=None, finalize=None):
         self.name = name
         self.fn = fn
         self.params = params or {}
         self.time_limit = time_limit
         self.kind = kind  # 'forall' (symbolic exploration) | 'concrete' (plain finite check, reported apart)
         self.max_paths = max_paths
+        self.finalize = finalize  # finalize(bag) -> list of confirmed violation dicts (existential claims over all paths)
 
 
 _OBLS = []
@@ -83,14 +84,18 @@ def _run_one(i):
 
         ex.explore(fn)
         st = ex.stats()
+        final_viol = []
+        if ob.finalize is not None and ex.exhausted and not ex.violations:
+            final_viol = list(ob.finalize(ex.bag))
+            st['finalize_checked'] = True
         status = 'discharged'
-        if ex.violations:
+        if ex.violations or final_viol:
             status = 'violated'
         elif not ex.exhausted:
             status = 'inconclusive'
         elif ex.checks_reached == 0:
             status = 'vacuous'
-        out.update(status=status, stats=st, violations=[v.as_dict() for v in ex.violations],
+        out.update(status=status, stats=st, violations=[v.as_dict() for v in ex.violations] + final_viol,
                    functions=sorted(tracer.codes), samples=ex.samples[:2])
     except BaseException as e:  # engine / harness error
         out.update(status='error', error=''.join(traceback.format_exception(type(e), e, e.__traceback__))[-3000:],
@@ -173,8 +178,8 @@ def run_property(modname, tier, seed=0, only=None, jobs=None):
             exit_code = max(exit_code, 3)
             continue
         for v in r['violations']:
-            if ob.kind == 'concrete':
-                reproduced = v  # concrete checks run the real code directly
+            if ob.kind == 'concrete' or v.get('confirmed'):
+                reproduced = dict(label=v['label'], message=v.get('message', ''), confirmed=True)  # already confirmed on the real code
             else:
                 reproduced, cx = symx.replay(ob.fn, v['inputs']['inputs'])
             if not reproduced:
@@ -291,6 +296,15 @@ def replay_file(path):
     if ob is None:
         print(f"obligation {rec['obligation']} not found")
         return 3
+    if rec.get('replayed', {}).get('confirmed'):
+        global _OBLS
+        _OBLS = [ob]
+        r = _run_one(0)
+        bad = [v for v in r['violations'] if v.get('confirmed')]
+        print('reproduced' if bad else 'not reproduced', bad[:1])
+        if bad:
+            print(f"VIOLATION property={rec['property']} replay={path}")
+        return 1 if bad else 0
     if ob.kind == 'concrete':
         res = ob.fn()
         bad = res.get('violations', [])
